@@ -162,19 +162,22 @@ int main(void)
             if (mkfifo(fifo_path, 0600)) { fprintf(proto, "BAD mkfifo\n"); fflush(proto); continue; }
             fflush(proto); fflush(stdout);
             fifo_child = fork();
+            if (fifo_child < 0) { unlink(fifo_path); fprintf(proto, "BAD fork\n"); fflush(proto); continue; }
             if (fifo_child == 0) {
                 uint8_t *d; size_t n = hx_decode(tok[6], &d), w; int k, fd;
                 /* the writer must not outlive a crashing parent nor keep the protocol pipes open */
                 prctl(PR_SET_PDEATHSIG, SIGKILL);
                 for (fd = 0; fd < 64; ++fd) close(fd);
                 signal(SIGALRM, SIG_DFL);
+                /* a reader that closes early (failed seek) must not kill the writer: the next open of the reader would block forever */
+                signal(SIGPIPE, SIG_IGN);
                 alarm(30);
-                for (k = 0; k < 8; ++k) {            /* serve every open of the reader */
+                for (k = 0; k < 100000; ++k) {       /* serve every open of the reader until the parent kills the writer */
                     fd = open(fifo_path, O_WRONLY);
                     if (fd < 0) _exit(0);
                     for (w = 0; w < n; ) { ssize_t r = write(fd, d + w, n - w); if (r <= 0) break; w += (size_t)r; }
                     close(fd);
-                    usleep(20000);
+                    usleep(2000);
                 }
                 _exit(0);
             }
